@@ -308,7 +308,26 @@ func (o *Obligation) SMTLevel(prelude string, produceModels bool, level int) str
 	}
 	sb.WriteString("(check-sat)\n")
 	if produceModels && len(o.Inputs) > 0 {
-		sb.WriteString("(get-value (" + strings.Join(o.Inputs, " ") + "))\n")
+		// only the inputs that are declared in this (sliced) query can be asked for
+		have := map[string]bool{}
+		for _, i := range idx {
+			li := o.vc.linfo[i]
+			if li.decl != "" {
+				have[li.decl] = true
+			}
+			if li.def != "" {
+				have[li.def] = true
+			}
+		}
+		var ins []string
+		for _, in := range o.Inputs {
+			if have[in] || !strings.HasPrefix(in, "|") {
+				ins = append(ins, in)
+			}
+		}
+		if len(ins) > 0 {
+			sb.WriteString("(get-value (" + strings.Join(ins, " ") + "))\n")
+		}
 	}
 	return sb.String()
 }
